@@ -1,1 +1,2 @@
 -- generated tables are imported here as they are added
+import PtGen.EqTable
